@@ -73,6 +73,7 @@ var verifPathShapes = []string{
 	"ex.a / (ex.b | ex.c)", "(ex.a | ex.b) / ex.c", "ex.a^ / ex.b", "ex.a / ex.b^", "ex.a / (ex.b^ | ex.c^)",
 	"(ex.a / ex.b) | (ex.c / ex.a)", "ex.a / @type", "(ex.a | ex.b) / (ex.c | ex.a)", "ex.a^ | ex.b^",
 	"ex.a / (ex.b / ex.c | ex.a) / ex.b", "((ex.a))", "ex.a / ((ex.b | ex.c) / ex.a | ex.b)",
+	"ex.a | (ex.b | ex.c)", "(ex.a | ex.b) | ex.c", "(ex.a / ex.b | ex.c) | ex.b", "ex.a / (ex.b / ex.c)", "(ex.a / ex.b) / ex.c", "ex.c | (ex.a / (ex.b | ex.c^))",
 	"ex.a / ex.b / (ex.c | ex.a) / ex.b", "ex.a / ex.b / ex.c / (ex.a^ | ex.b | ex.c^) / ex.a", "ex.a / (ex.b | ex.c) / (ex.a | ex.b) / ex.c",
 }
 
